@@ -694,6 +694,12 @@ func naiveLine(prefix string, lines []string) int {
 
 // checkMerge runs the merge monitors of run.Prop on one file set.
 func checkMerge(run *core.Run, files []core.File, exp mergeExpect, r *rand.Rand, repeats int) {
+	// registered with the watchdog: a merge that never comes back must end the run with a violation, not hang it
+	expJSON, _ := json.Marshal(&exp)
+	run.Guard(&core.Case{Kind: "merge", Files: files, Extra: map[string]string{"expect": string(expJSON)}}, func() { checkMerge1(run, files, exp, r, repeats) })
+}
+
+func checkMerge1(run *core.Run, files []core.File, exp mergeExpect, r *rand.Rand, repeats int) {
 	expJSON, _ := json.Marshal(&exp)
 	c := &core.Case{Kind: "merge", Files: files, Extra: map[string]string{"expect": string(expJSON)}}
 	prop := run.Prop
